@@ -966,6 +966,10 @@ impl<'a> RepositoryUpdate<'a> {
         //     temp file and replace it with something new and we will now
         //     copy that to the final location.
 
+        #[cfg(feature = "verif-hooks")]
+        crate::verif::point("fs.remove_file", || {
+            self.path.display().to_string()
+        });
         if let Err(err) = fs::remove_file(self.path.as_ref()) {
             if !matches!(err.kind(), io::ErrorKind::NotFound) {
                 error!(
@@ -977,6 +981,8 @@ impl<'a> RepositoryUpdate<'a> {
             }
         }
         drop(archive);
+        #[cfg(feature = "verif-hooks")]
+        crate::verif::point("fs.rename", || self.path.display().to_string());
         if let Err(err) = fs::rename(path.as_ref(), self.path.as_ref()) {
             error!(
                 "Fatal: Failed to move new RRDP repository file {} to {}: {}",
@@ -985,6 +991,8 @@ impl<'a> RepositoryUpdate<'a> {
             return Err(RunFailed::fatal())
         }
 
+        #[cfg(feature = "verif-hooks")]
+        crate::verif::point("fs.renamed", || self.path.display().to_string());
         self.log.debug(format_args!("snapshot update completed."));
         Ok(true)
     }
